@@ -106,6 +106,11 @@ func (s *sim) violate(prop, clause, disc, expected, observed, detail string) {
 
 const headerText = "// Copyright header for tests.\n// Second line.\n\n"
 
+// headerNotGo is a readable header file whose text cannot stand in front of a Go
+// file (licence text without comment markers): an unusable option of another kind
+// than a missing file — generation fails for every package that has output.
+const headerNotGo = "Copyright 2026 The Example Authors.\nLicensed under the Example License (no comment markers here).\n\n"
+
 // sourcesOf returns all source files of the current variants.
 func sourcesOf(pkgs []*pkgState) []world.File {
 	var files []world.File
@@ -113,6 +118,7 @@ func sourcesOf(pkgs []*pkgState) []world.File {
 		files = append(files, Sources(p.name, p.variant, p.n)...)
 	}
 	files = append(files, world.File{Path: "hdr.txt", Data: []byte(headerText)})
+	files = append(files, world.File{Path: "hdr_notgo.txt", Data: []byte(headerNotGo)})
 	return files
 }
 
@@ -396,6 +402,8 @@ func (s *sim) argv(st Step, w *world.World) []string {
 		args = append(args, "-header_file", filepath.Join(w.AppDir, "no-such-header.txt"))
 	case "dir":
 		args = append(args, "-header_file", w.AppDir)
+	case "notgo":
+		args = append(args, "-header_file", filepath.Join(w.AppDir, "hdr_notgo.txt"))
 	}
 	if st.Prefix != "" && st.Cmd == "gen" {
 		args = append(args, "-output_file_prefix", st.Prefix)
@@ -433,7 +441,7 @@ func (s *sim) fresh(cmd string, st Step) *freshResult {
 		fmt.Fprintf(&key, "%s=%s/%d;", p.name, p.variant, p.n)
 	}
 	hdr := st.Header
-	if cmd != "gen" || hdr == "missing" || hdr == "dir" {
+	if cmd != "gen" || hdr == "missing" || hdr == "dir" || hdr == "notgo" {
 		hdr = "" // the reference run uses usable options only
 	}
 	fmt.Fprintf(&key, "|h=%s|t=%s|cwd=%s|%s", hdr, st.Tags, st.Cwd, strings.Join(st.Patterns, " "))
@@ -588,7 +596,7 @@ func (s *sim) cmd(idx int, st Step) string {
 		e.Stats.FaultsConf.Add("env:nogo", 1)
 		e.Stats.FaultsFired.Add("env:nogo", 1)
 	}
-	if st.Header == "missing" || st.Header == "dir" {
+	if st.Header == "missing" || st.Header == "dir" || st.Header == "notgo" {
 		e.Stats.FaultsConf.Add("real:header-"+st.Header, 1)
 		e.Stats.FaultsFired.Add("real:header-"+st.Header, 1)
 	}
@@ -693,7 +701,9 @@ func (s *sim) cmd(idx int, st Step) string {
 		e.Stats.Counts.Add("crashed_runs", 1)
 	}
 
-	faultFired := len(fired) > 0 || st.NoGo || st.Header == "missing" || st.Header == "dir"
+	// a header that cannot stand in front of a Go file makes generation fail for every package that has output
+	hdrNotGo := st.Header == "notgo" && len(okT) > 0
+	faultFired := len(fired) > 0 || st.NoGo || st.Header == "missing" || st.Header == "dir" || hdrNotGo
 	// output path unusable (a directory) for a package that would be written
 	dirBlock := false
 	if isGen {
@@ -731,7 +741,7 @@ func (s *sim) cmd(idx int, st Step) string {
 				}
 			}
 			// ---------------- F3 isolation (C17) / R1 history independence (C18)
-			loadOK := !loadFails && !st.NoGo && st.Header != "missing" && st.Header != "dir" && !firedHas(fired, "getwd") && !firedHas(fired, "read:")
+			loadOK := !loadFails && !st.NoGo && st.Header != "missing" && st.Header != "dir" && st.Header != "notgo" && !firedHas(fired, "getwd") && !firedHas(fired, "read:")
 			if loadOK {
 				for _, n := range okT {
 					if writeFaulted(st, n, fired) {
@@ -816,7 +826,7 @@ func (s *sim) cmd(idx int, st Step) string {
 			}
 		case st.Cmd == "diff":
 			// ---------------- F4 status of diff (C17)
-			hdrBad := st.Header == "missing" || st.Header == "dir" || firedHas(fired, "read:") && st.Header == "good" && hdrFaulted(st)
+			hdrBad := st.Header == "missing" || st.Header == "dir" || hdrNotGo || firedHas(fired, "read:") && st.Header == "good" && hdrFaulted(st)
 			trouble := loadFails || len(badT) > 0 || st.NoGo || firedHas(fired, "getwd") || hdrBad
 			differs := false
 			for _, n := range okT {
@@ -832,6 +842,13 @@ func (s *sim) cmd(idx int, st Step) string {
 			readOutFault := false
 			for _, f := range fired {
 				if strings.HasPrefix(f, "read:") && !hdrFaulted(st) {
+					readOutFault = true
+				}
+			}
+			// a directory where the existing output should be is an unreadable existing output of the real
+			// world: "absent" (1) and "cannot complete the comparison" (2) are both within the statement
+			for _, n := range okT {
+				if got, present := beforeOut[n]["wire_gen.go"]; present && got == nil && fr.out[n] != nil {
 					readOutFault = true
 				}
 			}
@@ -882,7 +899,20 @@ func (s *sim) cmd(idx int, st Step) string {
 	}
 
 	// C19: at every state, check (and show) next to gen on the same targets
-	if (s.e.Prop == "C19" || s.e.Prop == "all") && judgeStatus && (isGen || st.Cmd == "diff") && !st.NoGo && len(st.Faults) == 0 {
+	// the command itself may have left a file outside C18's premise behind (wire writes the UNFORMATTED source when
+	// a header that is not Go makes formatting fail): from then on the loader is wedged and nothing is judged
+	wedgedAfter := false
+	for _, p := range s.pkgs {
+		for _, data := range s.outputs(p.name) {
+			if !inPremise(data) {
+				wedgedAfter = true
+			}
+		}
+	}
+	if wedgedAfter && !wedged {
+		e.Stats.Counts.Add("command_left_output_outside_premise", 1)
+	}
+	if (s.e.Prop == "C19" || s.e.Prop == "all") && judgeStatus && !wedgedAfter && (isGen || st.Cmd == "diff") && !st.NoGo && len(st.Faults) == 0 {
 		if infra := s.checkNextToGen(idx, st, fr, okT, badT, typeErrT, badSet); infra != "" {
 			return infra
 		}
@@ -979,7 +1009,7 @@ func loadBrokenFresh(fr *freshResult) bool {
 }
 
 func hdrNote(st Step) string {
-	if st.Header == "missing" || st.Header == "dir" {
+	if st.Header == "missing" || st.Header == "dir" || st.Header == "notgo" {
 		return " header=" + st.Header
 	}
 	return ""
@@ -1000,7 +1030,7 @@ func failClass(st Step, fired []string, dirBlock, bad, load bool) string {
 		return "fault:" + fired[0]
 	case st.NoGo:
 		return "loader-unavailable"
-	case st.Header == "missing" || st.Header == "dir":
+	case st.Header == "missing" || st.Header == "dir" || st.Header == "notgo":
 		return "header-unusable"
 	case dirBlock:
 		return "output-path-is-directory"
